@@ -24,6 +24,7 @@ type ReplaySpec struct {
 	Call     string // Go statement that runs the real code (default cpu.Step())
 	Diff     string // Go expression giving the difference mask (default vsStepDiff(...))
 	Intr     bool   // the pending request is part of the pre-state
+	Total    string // "<memory kind>/<io kind>": replay with the bundled implementations
 	Rel      *relCase
 	Contract *Contract
 	Lemma    *ssa.Function
@@ -147,6 +148,34 @@ func (ld *Loaded) genStepReplay(model map[string]uint64, rs *ReplaySpec, idx int
 	if model["nil:cpu.IO"] == 0 {
 		sb.WriteString("\tcpu.IO = &VsRecIO{G: g}\n")
 	}
+	if rs.Total != "" {
+		kinds := strings.SplitN(rs.Total, "/", 2)
+		store := func(field, typ string) {
+			n := model["tot:"+field+":len"]
+			if n > 0x20000 {
+				n = 0x20000
+			}
+			fmt.Fprintf(&sb, "\t{\n\t\ts := make(%s, %d)\n", typ, n)
+			for key, ix := range model {
+				if strings.HasPrefix(key, "totcell:"+field+":") && strings.HasSuffix(key, ":idx") && ix < n {
+					fmt.Fprintf(&sb, "\t\ts[%d] = 0x%x\n", ix, model[strings.TrimSuffix(key, ":idx")+":val"])
+				}
+			}
+			fmt.Fprintf(&sb, "\t\tcpu.%s = s\n\t}\n", field)
+		}
+		switch kinds[0] {
+		case "DumbMemory":
+			store("Memory", "DumbMemory")
+		case "MapMemory":
+			sb.WriteString("\tcpu.Memory = MapMemory{}\n")
+		}
+		switch kinds[1] {
+		case "DumbIO":
+			store("IO", "DumbIO")
+		case "nil":
+			sb.WriteString("\tcpu.IO = nil\n")
+		}
+	}
 	if model["nil:cpu.RETNHandler"] == 0 {
 		sb.WriteString("\tcpu.RETNHandler = &VsRecHandler{G: g}\n")
 	}
@@ -178,6 +207,9 @@ func (ld *Loaded) genStepReplay(model map[string]uint64, rs *ReplaySpec, idx int
 	diff := rs.Diff
 	if diff == "" {
 		diff = "vsStepDiff(cpu, &oldCPU, g, oldG)"
+	}
+	if rs.Total != "" {
+		diff = "uint64(0)"
 	}
 	sb.WriteString("\tfunc() {\n\t\tdefer func() {\n\t\t\tif r := recover(); r != nil {\n\t\t\t\tfmt.Printf(\"REPLAY-PANIC %v\\n\", r)\n\t\t\t}\n\t\t}()\n")
 	sb.WriteString("\t\t" + call + "\n\t}()\n")
